@@ -6,7 +6,20 @@ import "fmt"
 func unnamedEntry() Entry {
 	return Entry{Name: "unnamed", Build: func(f *Frag) {
 		f.Solo = true
-		switch f.N("form", 11) {
+		form := f.N("form", 13)
+		switch form {
+		case 11, 12: // a definition that carries a number of ANOTHER kind (#N / !N), N off the running count, between unnamed globals and functions
+			filler := "attributes #2 = { nounwind }"
+			if form == 12 {
+				filler = "!2 = !{}"
+			}
+			f.TopLine("@0 = global i32 10")
+			f.TopLine(filler)
+			f.TopLine("@1 = global i32 11")
+			f.TopLine("@2 = global i32 12")
+			f.TopLine("@p = global i32* @2")
+			f.TopLine("@r = global i32* @0")
+			f.TopLine("define void @3() {\n  %%v = load i32, i32* @2\n  store i32 %%v, i32* @0\n  ret void\n}")
 		case 9: // several unnamed functions of ONE type, each referred to in every way a function can be
 			f.TopLine("define void @0() {\n  ret void\n}")
 			f.TopLine("define void @1() {\n  ret void\n}")
